@@ -56,7 +56,9 @@ let handle (toks : string list) : (string * string * string) option =
        (* pcell0 / pcellm: the pointer operand is fetched once from its cell; what the adversary writes there afterwards is
           irrelevant to this operation (the operand object itself is not reported: "obj" is the value the cell held) *)
        (* a tainted_volatile operand is first stored to / loaded from a guest cell of its kind *)
-       let pre = (if wrapk = "tvol" then
+       (* wcell: the same, and the sandbox rewrites the cell before any second read of it: the operation uses the value it
+          fetched once *)
+       let pre = (if wrapk = "tvol" || wrapk = "wcell" then
                     (match to_sbx (lab cfg).l_int nk n with
                      | Some (Ok _) -> None | _ -> Some "ABORT") else None) in
        (match pre with
@@ -66,6 +68,13 @@ let handle (toks : string list) : (string * string * string) option =
           let sp = arith_form_spec l f p n stride in
           let wraps = arith_wraps (form_sub f) p (form_n f n) stride in
           let ms = string_of_res show_pair m and ss = string_of_res show_pair sp in
+          (* wcell: one fetch decides the check and the address: the outcome for n, or (code that consistently uses a later
+             read) the outcome for the rewritten value n + 3 *)
+          let (ms, ss) = if wrapk = "wcell" then
+              let n3 = Z.add n (z_of_int 3) in
+              (ms ^ " ||| " ^ string_of_res show_pair (arith_form postdec_ok idxchk l f p n3 stride),
+               ss ^ " ||| " ^ string_of_res show_pair (arith_form_spec l f p n3 stride))
+            else (ms, ss) in
           let cls = form ^ ":" ^ wrapk ^
                     (if p = Z0 then ":null" else "") ^
                     (match m with Ok _ -> ":ok" | _ -> ":abort") ^
@@ -78,9 +87,24 @@ let handle (toks : string list) : (string * string * string) option =
        let elsz = sizeof a (ptee_of_string elk) in
        let k = kind_of_string ik and n = zs n and len = zs len in
        let show off = "off=" ^ string_of_z off ^ " elsz=" ^ string_of_z elsz in
-       let m = string_of_res show (arr_index k n len Z0 elsz) in
-       let s = string_of_res show (arr_index_spec n len Z0 elsz) in
-       Some (m, s, where ^ ":" ^ (if Z.leb Z0 n && Z.ltb n len then "in" else "out"))
+       let wrapk = (match rest with [w] -> w | _ -> "plain") in
+       let watched = String.length wrapk >= 5 && String.sub wrapk 0 5 = "watch" in
+       (* cell / watch:<evil>: the index is an integer in sandbox memory (stored there first: aborts when it does not fit the
+          guest type); with watch the sandbox rewrites it before any second read: one fetch decides check and address *)
+       let pre = (if wrapk = "cell" || watched then
+                    (match to_sbx (lab cfg).l_int k n with
+                     | Some (Ok _) -> None | _ -> Some "ABORT") else None) in
+       (match pre with
+        | Some a -> Some (a, a, "cell-store-abort")
+        | None ->
+          let m = string_of_res show (arr_index k n len Z0 elsz) in
+          let s = string_of_res show (arr_index_spec n len Z0 elsz) in
+          let (m, s) = if watched then
+              let evil = zs (String.sub wrapk 6 (String.length wrapk - 6)) in
+              (m ^ " ||| " ^ string_of_res show (arr_index k evil len Z0 elsz),
+               s ^ " ||| " ^ string_of_res show (arr_index_spec evil len Z0 elsz))
+            else (m, s) in
+          Some (m, s, where ^ ":" ^ (if watched then "watch:" else "") ^ (if Z.leb Z0 n && Z.ltb n len then "in" else "out")))
      | "aidx2", [where; shape; ik; i; j] ->
        let a = if where = "app" then labi_host else lab cfg in
        let (elt, d1, d2) = (match shape with
